@@ -126,7 +126,7 @@ theorem lex_placeholder (n : Nat) (rest : Bytes) (hr : âˆ€ x r, rest = x :: r â†
 /-- The lexer reads a valid identifier followed by a non-identifier byte back as one `field` token. -/
 theorem lex_field (c rest : Bytes) (hc : validIdent c = true)
     (hr : âˆ€ x r, rest = x :: r â†’ isFieldChar x = false) : lexAll (c ++ rest) = .field c :: lexAll rest :=
-  lexAll_field c rest hc hr
+  lexAll_identField c rest hc hr
 
 /-- The tokens of the formatted text of a well-formed query. -/
 theorem lex_formatted (q : PQuery) (hq : WFQ q) : lexAll (fmtQuery q) = toksQ q ++ [.eof] :=
